@@ -527,23 +527,15 @@ impl Property for C19 {
         // NOTE: the object's digest is deliberately NOT folded into the event digest: whether
         // it is the same in another execution is the property under test, not the harness's
         // own determinism (which the framework's self-check is about).
+        // Touching the ambient generator or creating a randomised map during a seeded build is
+        // not by itself a violation (the value might be unused, the map never iterated): under
+        // the simulation the two builds are handed *different* draws and hash keys, so any use
+        // that reaches the object makes `a != b` below. The counts are kept as probes.
         if core.stats.rng_draws > 0 {
-            out.violations.push(
-                Violation::new(
-                    "seeded_build_used_ambient_randomness",
-                    format!("{:?}: {} draws from rand::rng() during a seeded build (sites {:?})", sc.gen, core.stats.rng_draws, core.stats.rng_draws_by_site),
-                )
-                .with("generator", name),
-            );
+            out.probe("seeded_build_touched_ambient_rng");
         }
         if core.stats.hash_keys > 0 {
-            out.violations.push(
-                Violation::new(
-                    "seeded_build_used_randomised_hash_order",
-                    format!("{:?}: {} randomised maps created during a seeded build", sc.gen, core.stats.hash_keys),
-                )
-                .with("generator", name),
-            );
+            out.probe("seeded_build_created_randomised_map");
         }
         if a != b {
             out.violations.push(
